@@ -14,7 +14,8 @@ entry list, nothing removed, every index ranked by cosine).
 
 Distances are exact: vectors have integer components, cosine distance is compared through
 the signed square of the similarity (a rational), L2 through the integer squared distance,
-so no float enters a theorem.  HNSW itself is not modelled: above the exact-search bound
+inner-product distance (1 − q·v, any sign) through the negated integer dot product, so no
+float enters a theorem.  HNSW itself is not modelled: above the exact-search bound
 the candidate ids it returns are an arbitrary input `raw`, and only the post-filter is
 modelled (every claim about that regime holds for all `raw`).
 -/
@@ -22,8 +23,10 @@ namespace SgModel.VecIdx
 
 abbrev Vec := List Int
 
+/-- every variant of `DistanceMetric` (`src/vector/index.rs`); Cypher DDL can declare the
+first two, the store / manager API and the HTTP layer all three -/
 inductive Metric where
-  | cosine | l2
+  | cosine | l2 | ip
 deriving DecidableEq, Repr
 
 def dot : Vec → Vec → Int
@@ -56,6 +59,9 @@ def rank (m : Metric) (q v : Vec) : Rank :=
   match m with
   | .cosine => cosRank q v
   | .l2 => ⟨l2sq q v, 0⟩
+  -- `InnerProductDistance::eval` = 1 − q·v: negative as soon as the dot product exceeds 1;
+  -- orders like −q·v (a zero vector sits at distance 1, between the two signs)
+  | .ip => ⟨-(dot q v), 0⟩
 
 structure Entry where
   node : Nat
@@ -331,6 +337,7 @@ def queryClass (nodes : List ONode) (dim : Nat) (m : Metric) (q : Vec) : Nat :=
   let cands := candidates nodes dim
   match m with
   | .l2 => if pairsAny (fun a b => l2sq q a = l2sq q b) cands then 1 else 2
+  | .ip => if pairsAny (fun a b => dot q a = dot q b) cands then 1 else 2
   | .cosine =>
     if pairsAny (cosTooClose q) cands then 0
     else if pairsAny (fun a b => (cosRank q a).le (cosRank q b) && (cosRank q b).le (cosRank q a)) cands then 1
